@@ -907,9 +907,13 @@ class SimSelector(selectors._BaseSelectorImpl):  # type: ignore[name-defined,mis
 
         ready = self._ready_now()
         if ready or woken() or (timeout is not None and timeout <= 0):
-            if timeout is not None and timeout <= 0 and not ready:
-                w.zero_wait()
-            sched.yield_point("select")
+            if timeout is not None and timeout <= 0 and not ready and not woken():
+                # a thread polling without waiting: let any other runnable thread run first (the OS would pre-empt a
+                # spinning thread); virtual CPU time only creeps when nobody else can run
+                if not sched.yield_point("select", force=True):
+                    w.zero_wait()
+            else:
+                sched.yield_point("select")
             ready = self._ready_now()
         else:
             w.positive_wait()
